@@ -121,6 +121,13 @@ pub open spec fn slot_ok(buf: io::IoSliceMut<'_>, meta: noq_udp::RecvMeta) -> bo
     meta.len <= buf@.len() && meta.stride <= meta.len && (meta.len > 0 ==> meta.stride > 0)
 }
 
+pub proof fn div_mul_le(a: int, b: int)
+    requires a >= 0, b > 0
+    ensures (a / b) * b <= a, a / b >= 0
+{
+    assert((a / b) * b <= a && a / b >= 0) by (nonlinear_arith) requires a >= 0, b > 0;
+}
+
 impl RelayTransport {
 //@fn iroh/src/socket/transports/relay.rs RelayTransport::poll_recv_queue props=C17 ret=r
 //@| ensures
@@ -161,6 +168,9 @@ impl RelayTransport {
 //@| proof {
 //@|     // conservation (discard path): exactly the taken datagram(s) left the head-of-line batch, nothing else is dropped
 //@|     assert(pending_bytes(*self) =~= head_before.subrange(dm.datagrams.contents@.len() as int, head_before.len() as int));
+//@|     // only a datagram that does not fit is ever discarded: the discarded chunk is ONE datagram (no segment size) and,
+//@|     // by the branch condition, longer than the buffer — never a re-batched group containing datagrams that would fit
+//@|     assert(dm.datagrams.segment_size is None);
 //@| }
 //@ins before 1
 //@- num_msgs += 1;
@@ -171,7 +181,7 @@ impl RelayTransport {
 //@| }
 //@rwx A3 1
 //@- \.map_or\(1, \|ss\| (.+?)\);\n
-//@+ .map_or(1, |ss: NonZeroU16| -> (n: usize) ensures n >= 1 { \1 });\n
+//@+ .map_or(1, |ss: NonZeroU16| -> (n: usize) ensures n >= 1, n == 1 || n * (ss@ as int) <= buf_out@.len() { proof { div_mul_le(buf_out@.len() as int, ss@ as int); } \1 });\n
 //@rwx A3 1
 //@- \.map_or\(dm\.datagrams\.contents\.len\(\), \|s\| (.+?)\);\n
 //@+ .map_or(dm.datagrams.contents.len(), |s: NonZeroU16| -> (n: usize) ensures n == s@ { \1 });\n
